@@ -7,15 +7,15 @@
 (* order.  The kernel is an uninterpreted injective function: the result of *)
 (* event i is the token i, so a result sequence is a sequence of event ids  *)
 (* and "bit for bit what one-at-a-time evaluation returns, in input order"  *)
-(* is outcome.val = <<1, ..., N>>.  FailAt = k > 0 means that evaluating    *)
-(* event k raises.                                                          *)
+(* is outcome.val = <<1, ..., N>>.  Fail is the set of events whose          *)
+(* evaluation raises.                                                       *)
 (*                                                                          *)
 (* Each action is Guard /\ Effect so that the trace spec (TraceBatch) can   *)
 (* evaluate the guard as a verdict clause and still apply the effect.       *)
 (***************************************************************************)
 EXTENDS Naturals, Sequences, FiniteSets
 
-CONSTANT Configs          \* set of records [N, PSize, W, FailAt]
+CONSTANT Configs          \* set of records [N, PSize, W, Fail]  (Fail: set of events whose evaluation raises)
 
 VARIABLES cfg,            \* the batch being evaluated
           st,             \* partition -> "pending" | "running" | "done" | "failed"
@@ -28,6 +28,8 @@ vars == <<cfg, st, res, outcome, kernel>>
 NParts(c)    == (c.N + c.PSize - 1) \div c.PSize
 PartOf(c, i) == (i - 1) \div c.PSize + 1
 PartLen(c, p) == IF p * c.PSize <= c.N THEN c.PSize ELSE c.N - (p - 1) * c.PSize
+PartSet(c, p) == {i \in 1..c.N : PartOf(c, i) = p}
+Failing(c, p) == PartSet(c, p) \cap c.Fail # {}
 PartSeq(c, p) == [k \in 1..PartLen(c, p) |-> (p - 1) * c.PSize + k]
 Parts(c)     == 1..NParts(c)
 Iota(n)      == [i \in 1..n |-> i]
@@ -51,7 +53,7 @@ Start(p) == StartGuard(p) /\ StartEffect(p)
 
 (* the partition's events are evaluated one by one, in order; the kernel object is only read *)
 FinishGuard(p) == /\ p \in Parts(cfg) /\ st[p] = "running"
-                  /\ ~(cfg.FailAt # 0 /\ PartOf(cfg, cfg.FailAt) = p)
+                  /\ ~Failing(cfg, p)
 FinishEffect(p, r) == /\ st' = [st EXCEPT ![p] = "done"]
                       /\ res' = [res EXCEPT ![p] = r]
                       /\ UNCHANGED <<cfg, outcome, kernel>>
@@ -59,7 +61,7 @@ Finish(p) == FinishGuard(p) /\ FinishEffect(p, PartSeq(cfg, p))
 
 (* the failing event's partition raises; the error becomes the outcome of the batch call *)
 FailGuard(p)  == /\ p \in Parts(cfg) /\ st[p] = "running"
-                 /\ cfg.FailAt # 0 /\ PartOf(cfg, cfg.FailAt) = p
+                 /\ Failing(cfg, p)
 FailEffect(p) == /\ st' = [st EXCEPT ![p] = "failed"]
                  /\ outcome' = [tag |-> "Err"]
                  /\ UNCHANGED <<cfg, res, kernel>>
@@ -91,7 +93,7 @@ TypeOK == /\ st \in [Parts(cfg) -> {"pending", "running", "done", "failed"}]
 OkIsIdentity == outcome.tag = "Ok" => outcome.val = Iota(cfg.N)
 
 (* C10: a failing event is never silent *)
-NeverSilent == cfg.FailAt # 0 => outcome.tag # "Ok"
+NeverSilent == cfg.Fail # {} => outcome.tag # "Ok"
 
 (* a finished partition holds exactly its own events, in order *)
 PartitionResults == \A p \in Parts(cfg) : st[p] = "done" => res[p] = PartSeq(cfg, p)
